@@ -22,6 +22,9 @@ import (
 	"google.golang.org/grpc/test/bufconn"
 	"google.golang.org/protobuf/proto"
 
+	"github.com/jhump/protoreflect/dynamic"
+	"google.golang.org/protobuf/reflect/protoreflect"
+
 	"github.com/fullstorydev/grpchan/httpgrpc"
 	"github.com/fullstorydev/grpchan/inprocgrpc"
 
@@ -37,19 +40,26 @@ type rpcSpec struct {
 
 // kase is one member of the grammar.
 type kase struct {
-	Engine     string   `json:"engine"`    // always "E2"
-	Transport  string   `json:"transport"` // inproc | http | grpc (reference, never reported)
-	Shape      string   `json:"shape"`
-	SendRep    string   `json:"send_rep"` // representation of the messages handed to a send: gen | dyn
-	RecvRep    string   `json:"recv_rep"` // representation of the receive destinations
-	HandlerErr bool     `json:"handler_err,omitempty"`
+	Engine     string `json:"engine"`    // always "E2"
+	Transport  string `json:"transport"` // inproc | http | grpc (reference, never reported)
+	Shape      string `json:"shape"`
+	SendRep    string `json:"send_rep"` // representation of the messages handed to a send: gen | dyn
+	RecvRep    string `json:"recv_rep"` // representation of the receive destinations
+	HandlerErr bool   `json:"handler_err,omitempty"`
 	// GC: the client's last use of its stream object is the final receive (as in a
 	// generated CloseAndRecv), and a garbage collection including finalizers
 	// completes while the handler is still busy. In all other cases the harness
 	// keeps the stream object reachable until the call is over.
-	GC         bool     `json:"gc,omitempty"`
-	RPC        rpcSpec  `json:"rpc"`
-	RPC2       *rpcSpec `json:"rpc2,omitempty"` // a second RPC running concurrently on the same channel
+	GC bool `json:"gc,omitempty"`
+	// Reuse: a streaming sender hands ONE object to all its sends and overwrites
+	// it in place with the content of its next message as soon as a send has
+	// returned (as a handler or client reusing a message does); the receiver is
+	// made to lag: it does not receive message i before the sender has done so
+	// (not for requests over HTTP, where a send returns only once the handler
+	// has read the message from the request pipe).
+	Reuse bool     `json:"reuse,omitempty"`
+	RPC   rpcSpec  `json:"rpc"`
+	RPC2  *rpcSpec `json:"rpc2,omitempty"` // a second RPC running concurrently on the same channel
 }
 
 func (k kase) key() string {
@@ -59,6 +69,9 @@ func (k kase) key() string {
 	}
 	if k.GC {
 		s += "|gc"
+	}
+	if k.Reuse {
+		s += "|reuse"
 	}
 	return s
 }
@@ -112,6 +125,9 @@ type rpcRun struct {
 	all   []*rpcRun // every RPC of the case (for the cross-talk diagnosis)
 
 	b1, b2 *barrier
+	abort  chan struct{}  // closed when a client failed or all clients are done
+	tok    [2]chan int    // Reuse: "send i has returned and the object has been overwritten", per direction
+	reused [2]interface{} // Reuse: the sender's one object, per direction
 
 	started [2]int32 // messages handed to a send so far: [0] requests, [1] responses
 
@@ -259,7 +275,12 @@ var errScripted = status.Error(codes.Aborted, "scripted handler failure")
 func (r *rpcRun) unaryHandler(ctx context.Context, dec func(interface{}) error) (resp interface{}, err error) {
 	atomic.AddInt32(&r.handlerEntered, 1)
 	defer close(r.srvDone)
-	defer func() { r.srvErr = err; if err == errScripted { r.srvErr = nil } }()
+	defer func() {
+		r.srvErr = err
+		if err == errScripted {
+			r.srvErr = nil
+		}
+	}()
 	defer r.guard("the unary handler (request decoding)", &err)
 	r.b1.wait()
 	d := r.dest()
@@ -279,11 +300,17 @@ func (r *rpcRun) unaryHandler(ctx context.Context, dec func(interface{}) error) 
 func (r *rpcRun) streamHandler(ss grpc.ServerStream) (err error) {
 	atomic.AddInt32(&r.handlerEntered, 1)
 	defer close(r.srvDone)
-	defer func() { r.srvErr = err; if err == errScripted { r.srvErr = nil } }()
+	defer func() {
+		r.srvErr = err
+		if err == errScripted {
+			r.srvErr = nil
+		}
+	}()
 	defer r.guard("the stream handler (RecvMsg / SendMsg)", &err)
 	r.b1.wait()
 	if clientStreams(r.spec.Kind) {
-		for {
+		for i := 0; ; i++ {
+			r.awaitSent("req", i, r.abort)
 			d := r.dest()
 			err := ss.RecvMsg(d)
 			if err == io.EOF {
@@ -295,6 +322,7 @@ func (r *rpcRun) streamHandler(ss grpc.ServerStream) (err error) {
 			r.onRecv("req", d)
 		}
 	} else {
+		r.awaitSent("req", 0, r.abort)
 		d := r.dest()
 		if err := ss.RecvMsg(d); err != nil {
 			return err
@@ -305,9 +333,10 @@ func (r *rpcRun) streamHandler(ss grpc.ServerStream) (err error) {
 	r.gcRounds()
 	for j := 0; j < r.spec.M; j++ {
 		atomic.AddInt32(&r.started[1], 1)
-		if err := ss.SendMsg(r.build("resp", j)); err != nil {
+		if err := ss.SendMsg(r.toSend("resp", j)); err != nil {
 			return err
 		}
+		r.sent("resp", j)
 	}
 	if r.k.HandlerErr {
 		return errScripted
@@ -344,7 +373,7 @@ func (r *rpcRun) client(cc grpc.ClientConnInterface, method string) {
 	}
 	for i := 0; i < r.spec.N; i++ {
 		atomic.AddInt32(&r.started[0], 1)
-		if err := cs.SendMsg(r.build("req", i)); err != nil {
+		if err := cs.SendMsg(r.toSend("req", i)); err != nil {
 			if err == io.EOF {
 				// the stream is over: the real outcome comes from RecvMsg
 				break
@@ -352,6 +381,7 @@ func (r *rpcRun) client(cc grpc.ClientConnInterface, method string) {
 			r.cliErr = err
 			return
 		}
+		r.sent("req", i)
 	}
 	if err := cs.CloseSend(); err != nil {
 		r.cliErr = err
@@ -383,8 +413,90 @@ func (r *rpcRun) gcRounds() {
 	}
 }
 
+// ------------------------------------------------------------ a sender that reuses its message
+
+func (r *rpcRun) toSend(dir string, idx int) interface{} {
+	if !r.k.Reuse {
+		return r.build(dir, idx)
+	}
+	d := dirIdx(dir)
+	if r.reused[d] == nil {
+		r.reused[d] = r.build(dir, idx)
+	}
+	return r.reused[d] // holds the content of message idx: see sent
+}
+
+// sent: send idx of the direction has returned to the sender.
+func (r *rpcRun) sent(dir string, idx int) {
+	if !r.k.Reuse {
+		return
+	}
+	d := dirIdx(dir)
+	// the next message's content (after the last one: content that is never sent)
+	overwrite(r.reused[d], r.shape.build(variant(r.id, dir, idx+1)))
+	r.tok[d] <- idx
+}
+
+// lagging: can the receiver of the direction be held back while the sender goes on?
+func (r *rpcRun) lagging(dir string) bool { return r.k.Transport != "http" || dir == "resp" }
+
+// awaitSent: the receiver, before its receive number idx.
+func (r *rpcRun) awaitSent(dir string, idx int, giveUp <-chan struct{}) {
+	if !r.k.Reuse || !r.lagging(dir) || idx >= r.expectedCount(dir) {
+		return
+	}
+	select {
+	case <-r.tok[dirIdx(dir)]:
+	case <-giveUp:
+	}
+}
+
+// overwrite replaces the content of obj by that of next, the way a sender that
+// reuses a message does: what the old content held by reference is scribbled
+// over in place first (bytes fields, bytes map values, unknown fields), then
+// the fields are set anew.
+func overwrite(obj interface{}, next proto.Message) {
+	switch x := obj.(type) {
+	case *dynamic.Message:
+		b, err := detMarshal.Marshal(next)
+		if err != nil {
+			panic(err)
+		}
+		if err := x.Unmarshal(b); err != nil { // resets first
+			panic(err)
+		}
+	case proto.Message:
+		m := x.ProtoReflect()
+		m.Range(func(fd protoreflect.FieldDescriptor, v protoreflect.Value) bool {
+			switch {
+			case fd.IsMap() && fd.MapValue().Kind() == protoreflect.BytesKind:
+				v.Map().Range(func(_ protoreflect.MapKey, mv protoreflect.Value) bool {
+					for i := range mv.Bytes() {
+						mv.Bytes()[i] ^= 0x5a
+					}
+					return true
+				})
+			case !fd.IsList() && !fd.IsMap() && fd.Kind() == protoreflect.BytesKind:
+				for i := range v.Bytes() {
+					v.Bytes()[i] ^= 0x5a
+				}
+			}
+			return true
+		})
+		u := m.GetUnknown()
+		for i := range u {
+			u[i] ^= 0x5a
+		}
+		proto.Reset(x)
+		proto.Merge(x, next)
+	default:
+		panic(fmt.Sprintf("overwrite: %T", obj))
+	}
+}
+
 func (r *rpcRun) receive(cs grpc.ClientStream) {
 	if !serverStreams(r.spec.Kind) {
+		r.awaitSent("resp", 0, r.srvDone)
 		d := r.dest()
 		if err := cs.RecvMsg(d); err != nil {
 			r.cliErr = err
@@ -393,7 +505,8 @@ func (r *rpcRun) receive(cs grpc.ClientStream) {
 		r.onRecv("resp", d)
 		return
 	}
-	for {
+	for j := 0; ; j++ {
+		r.awaitSent("resp", j, r.srvDone)
 		d := r.dest()
 		err := cs.RecvMsg(d)
 		if err == io.EOF {
@@ -474,7 +587,8 @@ func runCase(k kase) (o outcome) {
 	}
 	var runs []*rpcRun
 	for i, sp := range specs {
-		runs = append(runs, &rpcRun{id: i, k: k, spec: sp, shape: s, b1: b1, b2: b2, srvDone: make(chan struct{})})
+		runs = append(runs, &rpcRun{id: i, k: k, spec: sp, shape: s, b1: b1, b2: b2, srvDone: make(chan struct{}), abort: abort,
+			tok: [2]chan int{make(chan int, 8), make(chan int, 8)}})
 	}
 	for _, r := range runs {
 		r.all = runs
